@@ -10,6 +10,9 @@ TR = "sktime/forecasting/trend.py"
 SM = "sktime/forecasting/base/adapters/_statsmodels.py"
 EV = "sktime/forecasting/model_evaluation/_functions.py"
 TU = "sktime/forecasting/model_selection/_tune.py"
+PL = "sktime/forecasting/compose/_pipeline.py"
+ST = "sktime/forecasting/compose/_stack.py"
+EN = "sktime/forecasting/compose/_ensemble.py"
 MUTANTS = [
  ("C01", "get_end_plus1", S, "end = n_timepoints - fh_max + 1", "end = n_timepoints - fh_max + 2"),
  ("C01", "sliding_test_shift", S, "            train = np.arange(split_point - window_length, split_point)\n            test = split_point + fh - 1", "            train = np.arange(split_point - window_length, split_point)\n            test = split_point + fh"),
@@ -64,4 +67,13 @@ MUTANTS = [
  ("C08", "strategy_not_forwarded", TU, "                strategy=self.strategy,\n", "                strategy=\"refit\",\n"),
  ("C08", "best_score_from_first_row", TU, 'self.best_score_ = results.loc[self.best_index_, f"mean_{scoring_name}"]', 'self.best_score_ = results.loc[0 if len(results) > 3 else self.best_index_, f"mean_{scoring_name}"]'),
  ("C08", "random_state_dropped", TU, "self.param_distributions, self.n_iter, random_state=self.random_state", "self.param_distributions, self.n_iter, random_state=0 if self.n_iter > 2 else self.random_state"),
+ ("C09", "pipeline_update_raw_again", PL, "        forecaster.update(yt, update_params=update_params)", "        forecaster.update(y, update_params=update_params)"),
+ ("C09", "inverse_chain_not_reversed", PL, "        for _, _, transformer in self._iter_transformers(reverse=True):\n            # skip sktime transformers where inverse transform", "        for _, _, transformer in self._iter_transformers(reverse=False):\n            # skip sktime transformers where inverse transform"),
+ ("C09", "median_is_mean", EN, "            return y_pred.median(axis=1)", "            return y_pred.mean(axis=1)"),
+ ("C09", "stack_abs_fh_again", ST, "self._fit_forecasters(forecasters, y_fcst, fh=fh_rel, X=X)", "self._fit_forecasters(forecasters, y_fcst, fh=self.fh, X=X)"),
+ ("C09", "stack_no_refit", ST, "        # refit forecasters on entire training series\n        self._fit_forecasters(forecasters, y, fh=self.fh, X=X)", "        # refit forecasters on entire training series\n        pass"),
+ ("C09", "multiplex_last_member", "sktime/forecasting/compose/_multiplexer.py", "                    self._forecaster = clone(forecaster)", "                    self._forecaster = clone(forecaster if len(self.forecasters) < 3 else self.forecasters[-1][1])"),
+ ("C09", "ensemble_update_skips_last_member", EN, "        for forecaster in self.forecasters_:\n            forecaster.update(y, X, update_params=update_params)", "        for forecaster in self.forecasters_[: max(1, len(self.forecasters_) - 1)]:\n            forecaster.update(y, X, update_params=update_params)"),
+ ("C09", "pipeline_transformers_updated_with_raw", PL, "                transformer.update(yt, update_params=update_params)", "                transformer.update(y, update_params=update_params)"),
+ ("C09", "skip_inverse_tag_ignored", PL, '            if not _has_tag(transformer, "skip-inverse-transform"):\n                y_pred = transformer.inverse_transform(y_pred)', '            if True:\n                y_pred = transformer.inverse_transform(y_pred)'),
 ]
